@@ -5,7 +5,7 @@ from vlib import common, smt, chx
 FUNCS = ['DigitalRFMirrorHandler.mirror_to_dest', 'DigitalRFMirror.__init__ (handler set per method, LinkWithFallback)', 'DigitalRFMirrorHandler._get_dest_path']
 TITLES = {
     '_mirror_one': 'copy / move / link of one file under 1..3 (duplicated, late) events, optionally after a late event for a vanished file, with arbitrary pre-existing destination and stale tmp file (possibly a hard link of the source): destination ends with the source content, final name written only by rename from tmp., an intact copy exists in source or destination at every moment, vanished source changes nothing',
-    '_mirror_wiring': 'handler set per method: metadata and properties copied (linked) by the first handler, RF files moved by a separate handler only in move mode, the count-1 metadata ringbuffer only in move mode and dispatched after the copying handler',
+    '_mirror_wiring': 'handler set per method: metadata and properties copied (linked) by the first handler, RF files moved by a separate handler only in move mode, the count-1 metadata ringbuffer only in move mode and dispatched after the copying handler; the first handler selects exactly the data kinds it has to copy and the properties file of each selected kind',
     '_mirror_start': 'start(): property files always listed per the include flags, data / metadata files of the window unless ignore_existing; every listed path dispatched as a creation event to every handler in handler order without time matching',
     '_mirror_witness': 'reachability: a staged rename is reachable',
 }
@@ -81,6 +81,8 @@ for rel in want:
 for rel in (rf0 if not inc_drf else []) + (md0 if not inc_dmd else []):
     if not os.path.exists(os.path.join(src, rel)): print('excluded file removed from the source:', rel); bad = 1
     if os.path.exists(os.path.join(dst, rel)): print('excluded file mirrored:', rel); bad = 1
+for rel, on in ((props[0], inc_drf), (props[1], inc_dmd)):
+    if not on and os.path.exists(os.path.join(dst, rel)): print('properties file of a deselected kind mirrored:', rel); bad = 1
 for rel in props:
     if not os.path.exists(os.path.join(src, rel)): print('properties file removed from the source:', rel); bad = 1
 if method != 'move':
